@@ -51,6 +51,8 @@ type scenario struct {
 	fns     []*userFn
 	nextRes chan nextResult
 	nextOut bool
+	member  int
+	cgID    string
 	errsSeen int
 	closed  bool
 	closeCh chan struct{}
@@ -210,7 +212,7 @@ func (s *scenario) reply(c kafka.VerifCoordCall) kafka.VerifCoordReply {
 
 func (s *scenario) callNext() {
 	s.nextOut = true
-	kafka.VerifGroupEmit("H.NextCall")
+	kafka.VerifGroupEmit("H.NextCall", s.member)
 	go func() {
 		g, err := s.cg.Next(context.Background())
 		s.nextRes <- nextResult{g, err}
@@ -229,18 +231,18 @@ func (s *scenario) pollNext(wait time.Duration) bool {
 		switch {
 		case r.err == nil:
 			s.gens = append(s.gens, r.gen)
-			if !s.log.WaitCount(gm.Kind("CG.Handed"), len(s.gens), 3*time.Second) {
+			if !s.log.WaitCount(func(e kafka.VerifEvent) bool { return e.Kind == "CG.Handed" && (s.cgID == "" || e.Args[0] == s.cgID) }, len(s.gens), 3*time.Second) {
 				s.fail("stuck:no-handed-event")
 			}
-			kafka.VerifGroupEmit("H.NextRet", "gen", r.gen)
+			kafka.VerifGroupEmit("H.NextRet", "gen", r.gen, s.member)
 		case errors.Is(r.err, kafka.ErrGroupClosed):
-			kafka.VerifGroupEmit("H.NextRet", "err", "closed")
+			kafka.VerifGroupEmit("H.NextRet", "err", "closed", s.member)
 		default:
 			s.errsSeen++
-			if !s.log.WaitCount(func(e kafka.VerifEvent) bool { return e.Kind == "CG.Err" && e.Args[2] == "true" }, s.errsSeen, 3*time.Second) {
+			if !s.log.WaitCount(func(e kafka.VerifEvent) bool { return e.Kind == "CG.Err" && e.Args[2] == "true" && (s.cgID == "" || e.Args[0] == s.cgID) }, s.errsSeen, 3*time.Second) {
 				s.fail("stuck:no-err-event")
 			}
-			kafka.VerifGroupEmit("H.NextRet", "err", kafka.VerifGroupErrClass(r.err))
+			kafka.VerifGroupEmit("H.NextRet", "err", kafka.VerifGroupErrClass(r.err), s.member)
 		}
 		return true
 	case <-time.After(wait):
@@ -802,6 +804,15 @@ func main() {
 			s.start(time.Duration(1+rng.Intn(3))*time.Millisecond, time.Duration(1+rng.Intn(3))*time.Millisecond, time.Duration(2+rng.Intn(4))*time.Millisecond)
 			s.randomRun(20 + rng.Intn(80))
 			s.emit("random")
+		}
+	}
+	if only == "" || only == "multi" {
+		n := 10
+		if gen.Thorough() {
+			n = 100
+		}
+		for i := 0; i < n; i++ {
+			multiRun(rng, 2+rng.Intn(2), 150+rng.Intn(150))
 		}
 	}
 }
